@@ -34,6 +34,8 @@ STRENGTH = {
  "C17-d": "nested ranging over one stored Preorder value",
  "C19-d": "a second set of poslang expression objects shared by all node types with the same expression text",
  "C20-d": "texts of up to 400 (thorough 3 000) lines with every position resolved",
+ "C03-h": "caught by a random token mutant only; C03 now also runs the sentences of grammar G (systematic set under three renderings + random) through their entry points",
+ "C15-h": "long values: plain runs of 35 lengths (15 ... 70 001, around every power of two) x 3 fillers x 13 special units at the start, after the run and at the end",
  "C07-h": "C07 atoms that bring their own brackets or keywords (scalar / ARRAY / EXISTS sub-query, CASE, CAST, array literal, tuple): a parenthesis written around them is still a ParenExpr",
  "C11-h": "a `;` inserted in front of every token of every corpus file and systematic sentence (C11)",
  "C12-h": "literal matrix: backslash runs (0-5) x quote runs (0-4) for every prefix and quote form; the literal matrix also runs through C12, alone and between separators",
